@@ -14,6 +14,9 @@ CLAIMED['C10'] = dict(category='proof',
 CLAIMED['C13'] = dict(category='proof',
     text='Boxes are passed as their corner scalars; a universally quantified point p (and, for minimality of the bounding box, a universally quantified box c) is a ghost parameter, so each contract holds for every point without a quantifier reaching the solver. Contracts (postconditions taken from the property): contains_point == membership; intersects (non-empty) == a common point exists; contains(outer, non-empty inner) == subset; intersection contains exactly the common points and is null for non-intersecting non-empty boxes; extend_bounding_box contains both and is contained in every box containing both; box(pos,size)/size()/max(), shrink, stretch_absolute, null, corner_points (all 2^N vertices in order). The closed forms COMMON/SUBSET used in the contracts are themselves proved equivalent to the point-set statements by witness lemmas. int and unsigned coordinates, N = 1,2,3, full 32-bit coordinate domain; all loop-free.',
     note='Trusted: clang-14 front end + opt inline/sroa/mem2reg, ir2c, CBMC/solvers. The null-box clause of intersection is required only for non-empty operands (an empty operand that lies inside the other box yields an empty, non-null box; the property characterises intersects only for non-empty boxes). Not decided: center, stretch_relative, structure_cast, distance, output.')
+CLAIMED['C08'] = dict(category='proof',
+    text='Contracts on the real grid helpers for N = 1,2,3 (unsigned coordinates, full 32-bit domain): offset == x + y*w + z*(w*h); in_range_dim; min_less_sup; range_dim; range_size and pos_range::size == product of the extents (0 for an empty range); end_position; next_position and pos_iterator++ == the row-major successor with carry inside [min,sup), equal to end() exactly after the last in-range position; make_pos_range; clamped_min/sup/sup_signed per component. Bijection: offset(0) == 0 and offset(next_position(p)) == offset(p) + 1 for every in-range p of the whole-grid range, proved for N = 1,2,3 with uninterpreted products plus instances of the ring lemmas DIST/COMM/ZERO/ONE, each of which is itself proved for 32-bit machine multiplication (cvc5/z3). pos_ref_iterator (real grid::object<int,N> iterator type over a static cell array): * refers to the cell at offset(pos,size), ++ moves to the successor, one step from every in-range state (bounded: extents <= 16/64).',
+    note='(M) induction over the successor relation turns the step contracts into: the range visits every min <= p < sup exactly once in storage order, size() is the number visited, offset is a bijection onto [0, content). Products in the size contracts are uninterpreted (ufmul units): the proof holds for every binary operation in place of *. Not decided here: grid::object heap operations resize/map/apply/fill/at_optional on std::vector storage (std::vector code under a symbolic size did not close), interpolate, output.')
 NA = {}
 props = [json.loads(l) for l in open(os.path.join(V, 'properties.jsonl'))]
 na_reasons = json.load(open(os.path.join(V, 'tools', 'not_applicable.json')))
